@@ -199,6 +199,10 @@ func c15Guard(label string) ast.Node {
 func c15Check(v *Validator, n ast.Node, strictLabel string) {
 	p := &ast.Policy{Effect: ast.EffectPermit, Principal: ast.ScopeTypeAll{}, Action: ast.ScopeTypeAll{}, Resource: ast.ScopeTypeAll{},
 		Conditions: []ast.ConditionType{{Condition: ast.ConditionWhen, Body: n.AsIsNode()}}}
+	c15CheckPolicy(v, p)
+}
+
+func c15CheckPolicy(v *Validator, p *ast.Policy) {
 	if v.Policy("p", p) != nil {
 		vrt.Cover("C15.rejected")
 		return // completeness is not the property
@@ -345,4 +349,43 @@ func VerifC15_Joins() {
 		n = ast.Set(a, b).Contains(a).And(joined.Has(attr))
 	}
 	c15Check(v, n, mode)
+}
+
+
+// Several clauses: the guard sits in its own when / unless clause, before or after
+// the clause that relies on it.  What a clause establishes may only be used by a
+// later clause if the clause is a `when` (an `unless { x has a }` holds exactly
+// when a is absent), and never by an earlier one.
+func VerifC15_Clauses() {
+	c15WideOperands, c15WideGuards = false, vrt.Thorough()
+	v, _ := c15Validator()
+	g := c15Guard("guard")
+	accesses := []func() ast.Node{
+		func() ast.Node { return ast.Principal().Access("born").Equal(ast.Principal().Access("born")) },
+		func() ast.Node { return ast.Context().Access("opt").Equal(ast.String("x")) },
+		func() ast.Node { return ast.Principal().GetTag(ast.String("t")).Equal(ast.String("x")) },
+		func() ast.Node { return ast.Resource().Access("size").LessThan(ast.Long(3)) },
+		func() ast.Node { return ast.Principal().Access("nested").Access("b").Equal(ast.String("x")) },
+		func() ast.Node { return ast.Principal().Access("dec").DecimalLessThan(ast.Principal().Access("dec")) },
+		// required attributes: accepted whatever the other clause says
+		func() ast.Node { return ast.Principal().Access("age").LessThan(ast.Long(3)) },
+		func() ast.Node { return ast.Context().Access("k").LessThan(ast.Long(3)) },
+	}
+	use := accesses[vrt.Choice("access", len(accesses))]()
+	kinds := []ast.Condition{ast.ConditionWhen, ast.ConditionUnless}
+	gk := kinds[vrt.Choice("guard-clause", 2)]
+	uk := kinds[vrt.Choice("use-clause", 2)]
+	conds := []ast.ConditionType{{Condition: gk, Body: g.AsIsNode()}, {Condition: uk, Body: use.AsIsNode()}}
+	switch vrt.Choice("arrangement", 3) {
+	case 1: // use before guard
+		conds[0], conds[1] = conds[1], conds[0]
+	case 2: // an unrelated clause in between
+		conds = []ast.ConditionType{conds[0], {Condition: ast.ConditionWhen, Body: ast.Context().Access("k").LessThan(ast.Long(9)).AsIsNode()}, conds[1]}
+	}
+	p := &ast.Policy{Effect: ast.EffectPermit, Principal: ast.ScopeTypeAll{}, Action: ast.ScopeTypeAll{}, Resource: ast.ScopeTypeAll{}, Conditions: conds}
+	if vrt.Choice("forbid", 2) == 1 {
+		p.Effect = ast.EffectForbid
+	}
+	vrt.Cover("C15.clauses.checked")
+	c15CheckPolicy(v, p)
 }
